@@ -7,6 +7,10 @@ dimensional model - a tensor of terms with one axis per argument, over spaces of
 
     Matrix(R, C)      a symbolic dim(R) x dim(C) matrix           Cofunction in S*    a symbolic vector over S
     Coefficient in S  a symbolic vector over S (operand of an action only)
+    Form(v in S, ...) a variational form with one cell integral whose integrand is an opaque expression
+                      coefficient * <name>: a symbolic tensor with one axis per argument; Form / Integral
+                      arithmetic (scalar * integrand, -integrand, concatenation of integrals) is interpreted
+                      from source, FormSum folds its variational components into one Form
     ZeroBaseForm(args) the zero tensor with one axis per argument
     FormSum           sum of weight * denotation(component)        Adjoint(A)          the transposed matrix
     Action(A, b)      contraction of the last axis of A with the first axis of b
@@ -49,7 +53,9 @@ class Model:
         self.dims = {}
         self.atoms = {}
         self.den_atoms = {}
+        self.form_names = {}
         self.count = 0
+        self.install_integrand_arithmetic()
 
     def dim(self, space):
         """2 for P1 spaces (and their duals), 3 for P2 ones: by the element the lifted space holds"""
@@ -74,6 +80,61 @@ class Model:
         self.den_atoms[id(o)] = (o, T.symbolic(name, (self.dim(S),)), (S,))
         return o
 
+    def form(self, name, *spaces):
+        """a variational Form (one cell integral) with one argument per space: its integrand is an opaque
+        expression  coefficient * <name>  that knows its arguments; scalar * integrand and -integrand (all that
+        Form / Integral arithmetic does to an integrand) scale the coefficient"""
+        args = tuple(self.W.argument(S, k) for k, S in enumerate(spaces))
+        itg = self.integrand(((1, name),), args)
+        f = self.W.form([self.W.integral(itg, "cell", self.W.mesh(0))])
+        self.form_names[name] = (tuple(self.dim(S) for S in spaces), spaces)
+        return f
+
+    def integrand(self, terms, args):
+        o = Obj("integrand", __class__=self.W.K("ufl.algebra.Product"), ufl_operands=(), ufl_shape=(), ufl_free_indices=(), ufl_index_dimensions=(), _terms=tuple(terms), _args=tuple(args), _hash=None)
+        o.attrs["__repr__"] = "integrand(" + " + ".join(f"{c}*{n}" for c, n in terms) + ")"
+        o.attrs["__str__"] = o.attrs["__repr__"]
+        return o
+
+    def install_integrand_arithmetic(self):
+        ip = self.ip
+
+        def is_itg(x):
+            return isinstance(x, Obj) and x.kind == "integrand"
+
+        def scal(x):
+            return isinstance(x, (int, float)) and not isinstance(x, bool) or hasattr(x, "numerator")
+
+        prev_b = getattr(ip, "binop_hook", None)
+
+        def binop_hook(op, a, b, node):
+            if op is ast.Mult and (is_itg(a) and scal(b) or is_itg(b) and scal(a)):
+                i, k = (a, b) if is_itg(a) else (b, a)
+                return self.integrand(tuple((k * c, n) for c, n in i.attrs["_terms"]), i.attrs["_args"])
+            return prev_b(op, a, b, node) if prev_b else NotImplemented
+
+        ip.binop_hook = binop_hook
+        prev_u = getattr(ip, "unop_hook", None)
+
+        def unop_hook(op, a, node):
+            if op is ast.USub and is_itg(a):
+                return self.integrand(tuple((-c, n) for c, n in a.attrs["_terms"]), a.attrs["_args"])
+            return prev_u(op, a, node) if prev_u else NotImplemented
+
+        ip.unop_hook = unop_hook
+
+        def extract_arguments_and_coefficients(form):
+            args = []
+            for itg in self.W.call_method(form, "integrals"):
+                for a in self.W.call_method(itg, "integrand").attrs["_args"]:
+                    if not any(a is x for x in args):
+                        args.append(a)
+            return sorted(args, key=lambda a: self.W.call_method(a, "number")), []
+
+        ip.overrides["extract_arguments_and_coefficients"] = extract_arguments_and_coefficients
+        ip.overrides["extract_arguments"] = lambda form: extract_arguments_and_coefficients(form)[0]
+        ip.overrides["extract_terminals_with_domain"] = lambda form: (extract_arguments_and_coefficients(form)[0], [], [])
+
     def zero(self, *spaces):
         args = tuple(self.W.argument(S, k) for k, S in enumerate(spaces))
         return self.W.new("ufl.form.ZeroBaseForm", args)
@@ -95,6 +156,18 @@ class Model:
         if c == "ZeroBaseForm":
             sp = tuple(self.W.call_method(a, "ufl_function_space") for a in A["_arguments"])
             return T.zero(tuple(self.dim(s) for s in sp)), sp
+        if c == "Form":
+            acc, sp0 = None, None
+            for itg in A["_integrals"]:
+                i = self.W.call_method(itg, "integrand")
+                for coef, name in i.attrs["_terms"]:
+                    shape, sp = self.form_names[name]
+                    t = T.symbolic(name, shape).map(lambda v, coef=coef: sym.mul(sym.lift(coef), v))
+                    acc = t if acc is None else uflsem.t_add(acc, t)
+                    sp0 = sp0 or sp
+            if acc is None:
+                raise Unsupported("denotation of an empty Form")
+            return acc, sp0
         if c == "FormSum":
             acc, sp0 = None, None
             for comp, w in zip(A["_components"], A["_weights"]):
@@ -147,6 +220,10 @@ def run(ctx) -> Report:
         "d(U*)": Mo.cofunction("d", U),
         "0(V)": Mo.zero(V),
         "0(VxU)": Mo.zero(V, U),
+        # variational forms (integrals): sums of them are folded into one Form by FormSum
+        "F(V)": Mo.form("F", V),
+        "G(V)": Mo.form("G", V),
+        "a(VxU)": Mo.form("a", V, U),
     }
     vectors = {"u(V)": Mo.coefficient("u", V), "w(U)": Mo.coefficient("w", U)}
     where = {n: prog.lookup(prog.get_class(q), "__new__") for n, q in (("Action", "ufl.action.Action"), ("Adjoint", "ufl.adjoint.Adjoint"), ("FormSum", "ufl.form.FormSum"))}
@@ -217,6 +294,8 @@ def run(ctx) -> Report:
         else:
             try:
                 got = Mo.den(r)
+            except Unsupported as ex:
+                raise AnalysisError(f"{n}: {ex} ({ip.py_repr(r)[:200]})")
             except LiftRaise as ex:
                 rep.violation("C28-value", w, n, f"{n}: the object built is ill-formed: {ex.what[:140]}")
                 continue
@@ -252,6 +331,8 @@ def run(ctx) -> Report:
         comps = list(fs.attrs["_components"])
         for mode in ("identity", "annihilate first", "annihilate last", "annihilate all but last", "swap atoms"):
             def fn(x, mode=mode, comps=comps):
+                if isinstance(x, Obj) and x.kind == "integrand":
+                    return x  # a variational component is mapped integrand by integrand: kept
                 k = next((i for i, cc in enumerate(comps) if cc is x), None)
                 t, sp = Mo.den(x)
                 if mode == "annihilate first" and k == 0 or mode == "annihilate last" and k == len(comps) - 1 or mode == "annihilate all but last" and k is not None and k < len(comps) - 1:
@@ -263,7 +344,7 @@ def run(ctx) -> Report:
             try:
                 want = None
                 for comp, wgt in zip(comps, fs.attrs["_weights"]):
-                    t, sp = Mo.den(fn(comp))
+                    t, sp = Mo.den(comp if Mo.cls(comp) == "Form" else fn(comp))
                     t = t.map(lambda v, wgt=wgt: sym.mul(sym.lift(wgt), v))
                     want = t if want is None else uflsem.t_add(want, t)
                 r = ip.call_function(mi, [fn, fs], {})
@@ -285,13 +366,13 @@ def run(ctx) -> Report:
     rep.counts.update(rejected_by_typing=n_rejected, compositions=n_ok, map_cases=n_map, depth=depth)
     rep.explanation = (
         f"{n_ok} well-typed compositions (depth <= {depth}) of adjoint / negation / scaling / sum / difference / FormSum / action over matrices, "
-        "cofunctions, coefficients and zero forms were built by interpreting the constructors and BaseForm operators from source; the denotation "
+        "cofunctions, variational forms, coefficients and zero forms were built by interpreting the constructors and BaseForm operators from source; the denotation "
         "of each object built (a tensor over spaces of dimension 2 and 3) equals the denotation of the requested operation, and the arguments it "
         f"reports match the axes of that tensor; map_integrands interpreted on {len(sums)} sums x 5 component functions."
     )
     rep.assumptions = [
         "the finite-dimensional model: one symbolic tensor per atom; Action contracts the last axis of the left operand with the first axis of the right one",
-        "concrete Forms (integrals), Interpolate / ExternalOperator operands and derivatives of base forms are not in the family",
+        "variational Forms enter as one opaque integrand per form (coefficient * name); Interpolate / ExternalOperator operands and derivatives of base forms are not in the family",
     ]
     from ..memokey import memo_rule
 
